@@ -250,6 +250,11 @@ fn mix_seed(seed: u64, name: &str, worker: usize) -> u64 {
 
 static STOP: AtomicBool = AtomicBool::new(false);
 
+/// Wall-clock bound on shrinking (VERIF_SHRINK_SECS, default 25); the failure is reported either way.
+fn shrink_secs() -> u64 {
+    std::env::var("VERIF_SHRINK_SECS").ok().and_then(|v| v.parse().ok()).unwrap_or(25)
+}
+
 pub fn run_case(f: &(dyn Fn(&mut Gen) -> Verdict + Sync), tape: &[u32], want_desc: bool) -> (Verdict, Option<Value>) {
     let mut g = Gen::new(tape);
     g.want_desc = want_desc;
@@ -381,7 +386,7 @@ fn worker(
         if already_failed {
             // shrinking phase: bound it by wall clock as a safety net (result is still a failure)
             if let Some(t0) = *shrink_start.borrow() {
-                if t0.elapsed().as_secs() > 25 {
+                if t0.elapsed().as_secs() > shrink_secs() {
                     return Ok(());
                 }
             }
